@@ -521,6 +521,14 @@ def order_harness(eng, sp):
 
     if eng.mode == "conc":
         return order_replay(eng, sp, V)
+    if not (hasattr(V, "_save_frame") and hasattr(V, "_load_images")):
+        # the two private helpers are gone: fall back to the public entry point with a concrete number of frames (stated in the evidence)
+        eng.reachable("fallback-public-entry-120-frames")
+        ce = E.Engine("conc", values={"i": 99, "j": 120}, choices=[])
+        order_replay(ce, sp, V)
+        for v in ce.violations:
+            eng.fail(v.key, v.detail)
+        return
     i = eng.fresh_int("i", 1, sp["limit"])
     j = eng.fresh_int("j", 1, sp["limit"])
     eng.assume(i < j)
